@@ -80,6 +80,11 @@ func c10Eval(c c10Case) (ok bool, sig, detail string) {
 			if !dok || !obs.Equal(d0) {
 				return false, "not-restored", fmt.Sprintf("%s at i=%d n=%d: %s came back as %s denoting %s, want %s", c.Op, c.I, c.N, loc, printLoc(f.Loc), obs, d0)
 			}
+			// "(a join created by the split re-merges)": the restored location is not written with more parts than the original
+			// (an ambiguous span split by the guest becomes an order of two spans, which nothing promises to merge back)
+			if a, b := leafCount(f.Loc), leafCount(loc); a > b && !hasAmbiguous(loc) {
+				return false, "not-remerged", fmt.Sprintf("%s at i=%d n=%d: %s (%d parts) came back as %s (%d parts): the split did not re-merge", c.Op, c.I, c.N, loc, b, printLoc(f.Loc), a)
+			}
 		}
 		return true, "", ""
 	case "twin":
@@ -525,6 +530,8 @@ func init() {
 					c := c10Case{Op: "cut-concat", L: L, Locs: []string{locdom.Encode(loc), "R(0," + fmt.Sprint(L) + ",0)"}, Cuts: cuts, Keys: []string{"", "source"}}
 					// the same without the record-spanning source feature (a piece may then carry no feature at all)
 					eval(c10Case{Op: "cut-concat", L: L, Locs: []string{locdom.Encode(loc)}, Cuts: cuts}, len(cuts) >= 2)
+					// the location itself as a source feature (Slice treats that key specially), whatever its shape and strand
+					eval(c10Case{Op: "cut-concat", L: L, Locs: []string{locdom.Encode(loc)}, Cuts: cuts, Keys: []string{"source"}}, len(cuts) >= 1)
 					inside := false
 					for _, a := range denOf(loc).Bases() {
 						for _, ct := range cuts {
